@@ -179,11 +179,11 @@ def generate(seed, tier):
                 sc['ops'].append({'t': tt, 'op': 'expire', 'node': who, 'which': r.randrange(4), 'dir': r.choice(['in', 'out']),
                                   'hard': int(kind == 'expire_hard'), 'trig': kind})
             elif kind == 'rekey_ike':
-                sc['ops'].append({'t': tt, 'op': 'clockjump', 'node': who, 'delta': conn['lifetime'] + 6, 'trig': kind})
+                sc['ops'].append({'t': tt, 'op': 'clockjump', 'node': who, 'delta': conn['lifetime'] + 6, 'trig': kind, 'wake': pair})
             elif kind == 'delete_ike':
-                sc['ops'].append({'t': tt, 'op': 'clockjump', 'node': who, 'delta': conn['lifetime'] + 36, 'trig': kind})
+                sc['ops'].append({'t': tt, 'op': 'clockjump', 'node': who, 'delta': conn['lifetime'] + 36, 'trig': kind, 'wake': pair})
             else:
-                sc['ops'].append({'t': tt, 'op': 'clockjump', 'node': who, 'delta': conn['dpd'] + 1, 'trig': kind})
+                sc['ops'].append({'t': tt, 'op': 'clockjump', 'node': who, 'delta': conn['dpd'] + 1, 'trig': kind, 'wake': pair})
     dpd_max = max(ra['dpd'], rb['dpd'])
     H = dpd_max + 20 + 5 + 5
     sc['H'] = H
